@@ -12,7 +12,7 @@ EXPLANATION = (
     "regenerated from /repo on every run. The property's full statement is REFUTED on the model and on the code "
     "(two known findings, re-derived each run). Tie: for each corpus flow (typed API, rustc-checked) the IR, the flat "
     "graph emitted by the real emit(), FlatGraphBuilder::build and the real partition_graph verdict are compared with "
-    "the model's emit (exact node order, edge multiset, delay flags, arities, predicted verdict), and engine Partition's executable model of the partitioner (partition_verdict) is run on the model-emitted graph and must agree with the real verdict; generated code of "
+    "the model's emit (exact node order, edge multiset, delay flags, arities, predicted verdict), engine Partition's executable model of the partitioner accepts the emitted graph of every guarded flow (theorem, from Partition's C19_acyclic_accepted) and is also run per flow against the real verdict; generated code of "
     "every accepted flow is compiled by rustc into the harness and driven on random tick scripts. Not a proof of: the "
     "Rust type system (no typing judgement), rustc accepting generated code (sampled); the out-degree of cycle `identity` operators is the number of uses of the cycle variable (1 by Rust ownership, checked per corpus flow). "
     "Random well-typed programs are limited to seeded pipelines of 13 typed stages (rebuilt when the seed changes).")
@@ -21,7 +21,7 @@ EXPLANATION = (
 class C41(vlib.Spec):
     model_vo = ["theories/HydroB/PC41.vo", "theories/HydroB/XLoc.vo"]
     props_vo = "theories/Props/C41.vo"
-    theorems = ["C41_guarded_accepted_partial", "C41_tick_cycles_accepted_partial",
+    theorems = ["C41_guarded_accepted_partial", "C41_guarded_accepted_by_partitioner_model", "C41_tick_cycles_accepted_partial",
                 "C41_emitter_arities_partial", "C41_emitted_in_arities_partial", "C41_emitted_arities", "C41_refuted_sync_forward_ref", "C41_refuted_unimplemented"]
     crate, group, binary = "h_hydro_b", "hydro", "h_hydro_b"
     imports = ("From Coq Require Import List String NArith.\n"
